@@ -1,9 +1,208 @@
 import Driver.Util
-/-! driver ops of C16 (prefix `c16.`); filled in by the C16 work -/
+import Model.Resolver
+/-!
+driver ops of C16 (prefix `c16.`)
+
+```
+c16.qnames  <search names|_> <domain|none> <ndots|none> <usd 0/1> <qname> <search none/0/1>
+c16.chain   <resp> <qname> <class> <type>
+c16.run     <shipped|clipped> cfg:<servers>:<search>:<domain>:<ndots>:<usd>:<timeout>:<lifetime>:<rsf>:<cache>
+            req:<qname>:<type>:<class>:<tcp>:<rona>:<search>:<lifetime>:<gap>  …   (one per resolution)
+            x:<kind>:<dur> | r:<dur>:<rcode>:<qr>:<qcount>:<answer>:<authority>  …   (the script, shared)
+```
+servers `id.alwaysMax/…`; name lists joined by `/`; `_` = empty list; RRset `owner+class+type+ttl+target`;
+SOA `owner+class+ttl+minimum`.
+-/
 namespace Driver
-open Model
+open Model Model.Resolver
+
+def splitList (s : String) (sep : Char) : List String :=
+  if s = "_" then [] else splitOnChar s sep
+
+def parseOptNat (s : String) : Option (Option Nat) :=
+  if s = "none" then some none else s.toNat?.map some
+
+def parseOptBool (s : String) : Option (Option Bool) :=
+  if s = "none" then some none else (parseBool s).map some
+
+def parseNames (s : String) : Option (List Name) := (splitList s '/').mapM parseName
+
+def parseServer (s : String) : Option Server :=
+  match splitOnChar s '.' with
+  | [i, a] => do
+    let i ← i.toNat?
+    let a ← parseBool a
+    some { id := i, alwaysMax := a }
+  | _ => none
+
+def parseRR (s : String) : Option RRset :=
+  match splitOnChar s '+' with
+  | [o, c, t, ttl, tg] => do
+    let o ← parseName o
+    let c ← c.toNat?
+    let t ← t.toNat?
+    let ttl ← ttl.toNat?
+    let tg ← parseName tg
+    some { owner := o, rdclass := c, rdtype := t, ttl := ttl, target := tg }
+  | _ => none
+
+def parseSoa (s : String) : Option Soa :=
+  match splitOnChar s '+' with
+  | [o, c, ttl, m] => do
+    let o ← parseName o
+    let c ← c.toNat?
+    let ttl ← ttl.toNat?
+    let m ← m.toNat?
+    some { owner := o, rdclass := c, ttl := ttl, minimum := m }
+  | _ => none
+
+def parseResp (rcode qr qcount ans auth : String) : Option Resp := do
+  let rcode ← rcode.toNat?
+  let qr ← parseBool qr
+  let qcount ← qcount.toNat?
+  let ans ← (splitList ans '/').mapM parseRR
+  let auth ← (splitList auth '/').mapM parseSoa
+  some { rcode := rcode, qr := qr, qcount := qcount, answer := ans, authority := auth }
+
+def parseExKind : String → Option ExKind
+  | "form" => some .formError | "eof" => some .eof | "os" => some .os | "notimpl" => some .notImpl
+  | "trunc" => some .truncated | "timeout" => some .timeout | "other" => some .other
+  | _ => none
+
+def showExKind : ExKind → String
+  | .formError => "form" | .eof => "eof" | .os => "os" | .notImpl => "notimpl"
+  | .truncated => "trunc" | .timeout => "timeout" | .other => "other"
+
+def parseStep (s : String) : Option ScriptStep :=
+  match splitOnChar s ':' with
+  | ["x", k, d] => do
+    let k ← parseExKind k
+    let d ← d.toNat?
+    some { out := .exc k, dur := d }
+  | ["r", d, rcode, qr, qcount, ans, auth] => do
+    let d ← d.toNat?
+    let r ← parseResp rcode qr qcount ans auth
+    some { out := .resp r, dur := d }
+  | _ => none
+
+def parseCfg (s : String) : Option Config :=
+  match splitOnChar s ':' with
+  | ["cfg", servers, search, domain, ndots, usd, timeout, lifetime, rsf, cache] => do
+    let servers ← (splitList servers '/').mapM parseServer
+    let search ← parseNames search
+    let domain ← parseOptName domain
+    let ndots ← parseOptNat ndots
+    let usd ← parseBool usd
+    let timeout ← timeout.toNat?
+    let lifetime ← lifetime.toNat?
+    let rsf ← parseBool rsf
+    let cache ← parseBool cache
+    some { servers := servers, search := search, domain := domain, ndots := ndots, useSearchByDefault := usd,
+           timeout := timeout, lifetime := lifetime, retryServfail := rsf, cacheOn := cache }
+  | _ => none
+
+def parseReq (s : String) : Option (Request × Nat) :=
+  match splitOnChar s ':' with
+  | ["req", q, ty, cls, tcp, rona, search, life, gap] => do
+    let q ← parseName q
+    let ty ← ty.toNat?
+    let cls ← cls.toNat?
+    let tcp ← parseBool tcp
+    let rona ← parseBool rona
+    let search ← parseOptBool search
+    let life ← parseOptNat life
+    let gap ← gap.toNat?
+    some ({ qname := q, rdtype := ty, rdclass := cls, tcp := tcp, raiseOnNoAnswer := rona, search := search,
+            lifetime := life }, gap)
+  | _ => none
+
+def b01 (b : Bool) : String := if b then "1" else "0"
+
+def showOutcome : Outcome → String
+  | .exc k => showExKind k
+  | .resp r => "rc" ++ toString r.rcode
+
+def showEvent : Event → String
+  | .candidate _ => ""
+  | .sleep ms => "s" ++ toString ms
+  | .query q ns tcp t out =>
+    "q:" ++ showName q ++ ":" ++ toString ns.id ++ ":" ++ b01 tcp ++ ":" ++ toString t ++ ":" ++ showOutcome out
+
+def showNames (ns : List Name) : String :=
+  if ns.isEmpty then "_" else "/".intercalate (ns.map showName)
+
+def showAnswer (a : Answer) : String :=
+  "ans:" ++ showName a.qname ++ ":" ++ toString a.rdtype ++ ":" ++ toString a.rdclass ++ ":" ++ showName a.canonical
+    ++ ":" ++ b01 a.hasRRset ++ ":" ++ toString a.minTtl ++ ":" ++ toString a.expiration ++ ":"
+    ++ (match a.server with | some s => toString s | none => "none")
+
+def showResult : Result → String
+  | .answer a => showAnswer a
+  | .nxdomain qs rs => "NXDOMAIN:" ++ showNames qs ++ ":" ++ showNames rs
+  | .noAnswer => "NoAnswer"
+  | .yxdomain => "YXDOMAIN"
+  | .noNameservers => "NoNameservers"
+  | .lifetimeTimeout => "LifetimeTimeout"
+  | .nameError e => "NameError:" ++ e.toString
+  | .noMetaqueries => "NoMetaqueries"
+  | .outOfFuel => "OutOfFuel"
+
+def strLe (a b : String) : Bool := !(b < a)
+
+/-- live entries at `now`, printed `name/type/class/expiration/hasRRset/rcode`, sorted -/
+def showCache (c : Cache) (now : Nat) : String :=
+  let live := c.filter fun e => now < e.2.expiration
+  let strs := live.map fun e =>
+    showName e.1.1 ++ "/" ++ toString e.1.2.1 ++ "/" ++ toString e.1.2.2 ++ "/" ++ toString e.2.expiration ++ "/"
+      ++ b01 e.2.hasRRset ++ "/" ++ toString e.2.rcode
+  if strs.isEmpty then "_" else ";".intercalate (strs.mergeSort strLe)
+
+def runHistory (cfg : Config) (clip : Bool) : List (Request × Nat) → Nat → Cache → List ScriptStep → List String → List String
+  | [], _, _, _, acc => acc.reverse
+  | (req, gap) :: rest, now, cache, script, acc =>
+    let start := now + gap
+    let (evs, r, st) := resolve cfg codeBackoff clip ConstsC16.maxChain req start cache script
+    let line := " ".intercalate ((evs.map showEvent).filter (· ≠ "")) ++ " => " ++ showResult r ++ " end=" ++ toString st.now
+      ++ " cache=" ++ showCache st.cache st.now
+    runHistory cfg clip rest st.now st.cache st.script (line :: acc)
+
+def showChain (r : Except ChainErr ChainResult) : String :=
+  match r with
+  | .error .notQueryResponse => "err NotQueryResponse"
+  | .error .formError => "err FormError"
+  | .error .chainTooLong => "err ChainTooLong"
+  | .error .answerForNXDOMAIN => "err AnswerForNXDOMAIN"
+  | .ok c => "ok " ++ showName c.canonical ++ " " ++ b01 c.answer.isSome ++ " " ++ toString c.minTtl ++ " "
+      ++ showNames (c.cnames.map (·.owner))
 
 def handleC16 : List String → Option String
+  | ["c16.qnames", search, domain, ndots, usd, q, s] => do
+    let search ← parseNames search
+    let domain ← parseOptName domain
+    let ndots ← parseOptNat ndots
+    let usd ← parseBool usd
+    let q ← parseName q
+    let s ← parseOptBool s
+    let cfg : Config := { servers := [], search := search, domain := domain, ndots := ndots,
+                          useSearchByDefault := usd, timeout := 0, lifetime := 0, retryServfail := false,
+                          cacheOn := false }
+    some (match getQnamesToTry cfg q s with
+      | .ok l => "ok " ++ showNames l
+      | .error e => "err " ++ e.toString)
+  | ["c16.chain", resp, q, cls, ty] => do
+    let r ← match splitOnChar resp ':' with
+      | [rcode, qr, qcount, ans, auth] => parseResp rcode qr qcount ans auth
+      | _ => none
+    let q ← parseName q
+    let cls ← cls.toNat?
+    let ty ← ty.toNat?
+    some (showChain (resolveChaining ConstsC16.maxChain r q cls ty))
+  | "c16.run" :: variant :: cfg :: rest => do
+    let clip ← (if variant = "shipped" then some false else if variant = "clipped" then some true else none)
+    let cfg ← parseCfg cfg
+    let reqs ← (rest.filter (·.startsWith "req:")).mapM parseReq
+    let script ← (rest.filter (fun s => !(s.startsWith "req:"))).mapM parseStep
+    some (" || ".intercalate (runHistory cfg clip reqs 0 [] script []))
   | _ => none
 
 end Driver
